@@ -79,7 +79,7 @@ func TestC16(t *testing.T) {
 	defer rec.Close()
 	ctxs := contexts(t)
 	// Message.Answer over the header space
-	rec.Suite("answer-api", rec.N(4096, 2000000), func(c *ev.Case) {
+	rec.Suite("answer-api", rec.N(4096, 10000000), func(c *ev.Case) {
 		r := c.R
 		ctx := ctxs[c.I%len(ctxs)]
 		flags := uint8(c.I) // every flag byte, many times over
